@@ -23,7 +23,7 @@ CHECKS = {
             "DESIGN.md 4/C03"),
     "C04": ("exploration",
             "proptest histories with immediate observation after the terminal call (files, committing custom writer, child process ending with _exit)",
-            "Generated histories of writes, flushes, rotations, clone-and-drop of the handle and sleeps in every write mode and output, ended by shutdown(), drop of the last handle or flush(); the output is read immediately after the call returned (the child process _exits) and must hold exactly the records whose log calls had returned, also those logged after a clone of the handle was dropped. Search, not proof; found the clone-drop defect that was repaired. Later additions: two shutdown() calls in flight at once (observation after the first that returns), the last two handle clones dropped concurrently by two threads (60 repetitions per case), loggers built with a specification file (watcher build).",
+            "Generated histories of writes, flushes, rotations, clone-and-drop of the handle and sleeps in every write mode and output, ended by shutdown(), drop of the last handle or flush(); the output is read immediately after the call returned (the child process _exits) and must hold exactly the records whose log calls had returned, also those logged after a clone of the handle was dropped. Search, not proof; found the clone-drop defect that was repaired. Later additions: two shutdown() calls in flight at once (observation after the first that returns), the last two handle clones dropped concurrently by two threads (60 repetitions per case), loggers built with a specification file (watcher build). Round-5 additions: a second thread that logs while shutdown() runs (records acknowledged before the call), a healthy writer beside a log file on /dev/full (every flush of the file fails).",
             "timing of flusher/writer threads is sampled, not controlled",
             "DESIGN.md 4/C04"),
     "C05": ("exploration",
@@ -38,12 +38,12 @@ CHECKS = {
             "DESIGN.md 4/C10"),
     "C11": ("fault_enumeration",
             "crash-point enumeration: child processes killed with SIGKILL at traced hook points of proptest-generated histories, acknowledgement file vs. directory contents, restart in a second child",
-            "For every generated history the hits of all hook points (before/after each file-system effect of write, rotation, symlink replacement, cleanup, compression) are traced; a fresh child is killed at each (point, occurrence) pair (all pairs for small histories, otherwise a subset incl. first/last occurrence of every point); acknowledged records must be in the files, nothing torn/duplicated/reordered; a second child restarts on the directory and must exit 0 with an empty error channel, preserve what the limits permit and keep the limits. Enumeration per history, histories sampled.",
+            "For every generated history the hits of all hook points (before/after each file-system effect of write, rotation, symlink replacement, cleanup, compression) are traced; a fresh child is killed at each (point, occurrence) pair (all pairs for small histories, otherwise a subset incl. first/last occurrence of every point); acknowledged records must be in the files, nothing torn/duplicated/reordered; a second child restarts on the directory and must exit 0 with an empty error channel, preserve what the limits permit and keep the limits. Enumeration per history, histories sampled. Round-5 additions: after the restart a configured symlink must resolve to the file written last.",
             "kills at hook points (SIGKILL on self), not inside system calls; for background cleanup the position of the kill relative to the logging thread is schedule dependent",
             "DESIGN.md 4/C11"),
     "C12": ("exploration",
             "systematic enumeration of thread interleavings at hook points (controlled scheduler) over proptest-generated spec sets",
-            "2-3 threads each issue one specification change (in ~6% of the cases flexi_logger's own specfile watcher thread is one of the participants); a scheduler parks them at the three hook points of every update - plus, with an additional writer, at a harness-owned point inside the writer's max_log_level() - and executes all 20 / 70 orderings (2 threads) or all 1680 / a sample (3 threads, watcher cases); final filtering must equal exactly one submitted spec and log::max_level must admit it. Exhaustive at hook granularity for each generated spec set without watcher, search over spec sets.",
+            "2-3 threads each issue one specification change (in ~6% of the cases flexi_logger's own specfile watcher thread is one of the participants); a scheduler parks them at the three hook points of every update - plus, with an additional writer, at a harness-owned point inside the writer's max_log_level() - and executes all 20 / 70 orderings (2 threads) or all 1680 / a sample (3 threads, watcher cases); final filtering must equal exactly one submitted spec and log::max_level must admit it. Exhaustive at hook granularity for each generated spec set without watcher, search over spec sets. Round-5 additions: a harness-owned schedule point at the start of every call (70 orderings for 2 threads), nothing is granted before all threads have arrived, and an epilogue in which every clone that pushed during the concurrent phase pops again.",
             "interleavings below the granularity of the schedule points are not controlled; blocked threads (lock) are detected by a 10 ms timeout which only changes which interleaving is explored; watcher runs depend on the inotify event arriving within 6 s (otherwise the run goes on without the watcher)",
             "DESIGN.md 4/C12"),
     "C16": ("exploration",
@@ -58,7 +58,7 @@ CHECKS = {
             "DESIGN.md 4/C17"),
     "C18": ("exploration",
             "model-based histories (proptest) with self-checking record payloads; exactly-once / order / location invariants over all files",
-            "Generated histories mixing writes, flushes, rotations, external rename/remove + reopen_output, and reset_flw between up to three families (refused resets with another write mode included) in all synchronous write modes; afterwards every record must be found exactly once (unless it sat in an externally removed file), in increasing order inside every file and family, renamed files must hold a contiguous range ending right before their reopen, and records after reopen/reset must be in the original/new family. Search, not proof.",
+            "Generated histories mixing writes, flushes, rotations, external rename/remove + reopen_output, and reset_flw between up to three families (refused resets with another write mode included) in all synchronous write modes; afterwards every record must be found exactly once (unless it sat in an externally removed file), in increasing order inside every file and family, renamed files must hold a contiguous range ending right before their reopen, and records after reopen/reset must be in the original/new family. Search, not proof. Round-5 additions: a second thread that logs while the history runs, also during reopen_output()/reset_flw() (per-thread order, no loss, no duplicate), with a cleanup thread and noise at the hook points.",
             "records between an external rename and reopen are generated only without rotation; records in externally removed files are unobservable",
             "DESIGN.md 4/C18"),
     "C19": ("fault_enumeration",
@@ -73,27 +73,27 @@ CHECKS = {
             "DESIGN.md 4/C20"),
     "C06": ("exploration",
             "model-based multi-run histories (proptest) with stream-continuation and immutability invariants over directory snapshots",
-            "Generated sequences of 2-5 runs (append on/off, writes, rotations, clock gaps from 0 ms to 40 days) with all namings and cleanup strategies and directory manipulations between runs (all rotated files gzipped, current missing, gaps); after every run the gunzipped family stream must be the previous stream plus the run's lines (a suffix of it with cleanup; documented truncation modelled) and every closed file of the previous snapshot must be unchanged or legitimately cleaned up. Search, not proof; found and led to the repair of six restart defects. Later additions: renumbering of the family up to index 99998 between runs (rotations cross r99999 -> r100000), dotted names, build_variant.",
+            "Generated sequences of 2-5 runs (append on/off, writes, rotations, clock gaps from 0 ms to 40 days) with all namings and cleanup strategies and directory manipulations between runs (all rotated files gzipped, current missing, gaps); after every run the gunzipped family stream must be the previous stream plus the run's lines (a suffix of it with cleanup; documented truncation modelled) and every closed file of the previous snapshot must be unchanged or legitimately cleaned up. Search, not proof; found and led to the repair of six restart defects. Later additions: renumbering of the family up to index 99998 between runs (rotations cross r99999 -> r100000), dotted names, build_variant. Round-5 additions: removal of the newest plain file of a direct naming between runs (missing current file), suffix gz.",
             "trusts the name grammar / semantic order and the directory-snapshot comparison; [starttime] part excluded",
             "DESIGN.md 4/C06"),
     "C07": ("exploration",
             "model-based histories (proptest) with cleanup invariants checked after every operation; randomized schedules (hook-point noise) for background executors",
-            "Generated histories x cleanup limits k,m in {0,1,2,3,5} x namings x suffixes x executors; upper bounds, contiguous-tail stream oracle (implies lossless compression and no plain twin), current file plain and present, and lower bounds from the reference partition model's count of produced files. Synchronous cleanup is checked after every operation; background/async cleanup after shutdown under seed-chosen scheduling noise (sampling, not enumeration). Later additions: cleanup limits at usize::MAX, dotted names, noise at rotation points, build_variant.",
+            "Generated histories x cleanup limits k,m in {0,1,2,3,5} x namings x suffixes x executors; upper bounds, contiguous-tail stream oracle (implies lossless compression and no plain twin), current file plain and present, and lower bounds from the reference partition model's count of produced files. Synchronous cleanup is checked after every operation; background/async cleanup after shutdown under seed-chosen scheduling noise (sampling, not enumeration). Later additions: cleanup limits at usize::MAX, dotted names, noise at rotation points, build_variant. Round-5 additions: suffix gz.",
             "trusts the partition model for the number of produced files; schedules of the background cleanup are sampled by the OS + noise only",
             "DESIGN.md 4/C07"),
     "C14": ("exploration",
             "differential twin runs (with vs without foreign entries) over proptest-generated near-miss names, metadata comparison of the foreign entries",
-            "The same generated multi-run history is executed in a directory pre-populated with near-miss foreign entries (classified by the reference family predicate) and in an empty directory under the same virtual clock; foreign entries must keep name/inode/size/mtime/bytes, and family files, existing_log_files answers and error counts must be identical between the twins. Search, not proof. Later additions: sub-directories with real family names, directory twins of compressed files planted before later runs, foreign names with non-ASCII digits.",
+            "The same generated multi-run history is executed in a directory pre-populated with near-miss foreign entries (classified by the reference family predicate) and in an empty directory under the same virtual clock; foreign entries must keep name/inode/size/mtime/bytes, and family files, existing_log_files answers and error counts must be identical between the twins. Search, not proof. Later additions: sub-directories with real family names, directory twins of compressed files planted before later runs, foreign names with non-ASCII digits. Round-5 additions: foreign names that only a lenient timestamp parser accepts (no zero padding, sign, blank), suffix gz.",
             "the reference family predicate (src/observe.rs) defines 'foreign'; sub-directories may also carry real family names that no history produces",
             "DESIGN.md 4/C14"),
     "C08": ("exploration",
             "proptest histories + reference partition model (model-based testing)",
-            "Generated size limits, record-length sequences at the limit boundaries, all write modes incl. async, all namings, append restarts; the ordered list of file contents must equal the partition predicted by an independent model (rotate iff size before the write > N, size seeded from the appended file), plus the corollary 'no record appended to a file already above N' checked directly on the files. Search over thousands of cases, no proof. Later additions: records whose own write fails (sync and async modes; the model takes the rotation decision and adds no bytes), external move of the current file + reopen_output().",
+            "Generated size limits, record-length sequences at the limit boundaries, all write modes incl. async, all namings, append restarts; the ordered list of file contents must equal the partition predicted by an independent model (rotate iff size before the write > N, size seeded from the appended file), plus the corollary 'no record appended to a file already above N' checked directly on the files. Search over thousands of cases, no proof. Later additions: records whose own write fails (sync and async modes; the model takes the rotation decision and adds no bytes), external move of the current file + reopen_output(). Round-5 additions: plain reopen_output() and reset_flw() onto the writer's own configuration inside the histories (no flush before them).",
             "trusts the reference partition model (src/model.rs, written from the documentation), the name grammar, tmpfs; restarts of direct-timestamp namings avoided (listed finding under C06) and counted",
             "DESIGN.md 4/C08"),
     "C09": ("exploration",
             "proptest histories under a virtual clock + reference partition model (model-based testing)",
-            "Virtual-clock histories with structured instants and advance steps straddling second/minute/hour/day/month/year boundaries, in 6 DST-free time zones; file partition must equal the model (rotate iff local period differs from the period in which the current file was started) and timestamp infixes must equal the instant the content was started. Search, not proof. Later additions: failing writes and external move + reopen_output() as for C08; three real-time cases per run (real clock and real file metadata, Age::Second, 2.3 s tight logging loop; oracle: not more files than seconds seen, no file spanning two seconds).",
+            "Virtual-clock histories with structured instants and advance steps straddling second/minute/hour/day/month/year boundaries, in 6 DST-free time zones; file partition must equal the model (rotate iff local period differs from the period in which the current file was started) and timestamp infixes must equal the instant the content was started. Search, not proof. Later additions: failing writes and external move + reopen_output() as for C08; three real-time cases per run (real clock and real file metadata, Age::Second, 2.3 s tight logging loop; oracle: not more files than seconds seen, no file spanning two seconds). Round-5 additions: plain reopen_output() and reset_flw() onto the same configuration inside the histories; real-time cases that start a logger (and let reopen_output() create a file) right after a second boundary of the wall clock.",
             "trusts the verif_hooks clock redirection (every Local::now() of the file writer and the creation-time lookup), chrono's time-zone conversion, the reference model; async mode and direct-timestamp restarts excluded as stated in the evidence",
             "DESIGN.md 4/C09"),
     "C13": ("exploration",
@@ -103,7 +103,7 @@ CHECKS = {
             "DESIGN.md 4/C13"),
     "C15": ("exploration",
             "differential testing across write modes (proptest) + enumerated single-byte chunks",
-            "The same generated record or raw-chunk sequence is run under Direct, buffered and async modes; ordered file contents must agree with the Direct run and with the partition model, chunk concatenation must equal the input; all 256 single-byte chunk values are enumerated. Search, not proof. Later additions: the list of all files including empty ones is compared with the Direct run; short counts from io::Write::write are followed up as write_all does; a pause after every flush in async modes.",
+            "The same generated record or raw-chunk sequence is run under Direct, buffered and async modes; ordered file contents must agree with the Direct run and with the partition model, chunk concatenation must equal the input; all 256 single-byte chunk values are enumerated. Search, not proof. Later additions: the list of all files including empty ones is compared with the Direct run; short counts from io::Write::write are followed up as write_all does; a pause after every flush in async modes. Round-5 additions: reopen_output() as an item of the sequences.",
             "trusts the Direct mode only as the differential reference (also compared with the model)",
             "DESIGN.md 4/C15"),
 }
